@@ -22,6 +22,10 @@ type KeyCfg struct {
 	// Chain: the TLS store given through the deprecated field carries a certificate chain — the leaf followed
 	// by an issuer certificate (ChainIssuer), as a store built from "leaf + CA bundle" PEM does.
 	Chain bool `json:"chain,omitempty"`
+	// LeafLast (with Chain): the bundle is NOT ordered leaf first — issuer certificate, then the leaf (a PEM file
+	// concatenated the other way round). Certificate[0] is what the library takes for "the" certificate; whatever
+	// that means for such a store, nobody re-orders the caller's slice.
+	LeafLast bool `json:"leafLast,omitempty"`
 	// Bare: the custom store's RSA key is assembled from bare components, without precomputed CRT values.
 	Bare bool `json:"bare,omitempty"`
 	// FailSign: the key cannot sign (an HSM / KMS that is unavailable): crypto.Signer.Sign returns an error for
@@ -135,6 +139,9 @@ func keyStoreField(k KeyCfg) dsig.X509KeyStore {
 		st := TLSStore(k.Field)
 		if k.Chain {
 			st.Certificate = append(st.Certificate, ChainIssuer.DER())
+			if k.LeafLast {
+				st.Certificate[0], st.Certificate[1] = st.Certificate[1], st.Certificate[0]
+			}
 		}
 		if k.FailSign {
 			st.PrivateKey = FailingSigner{K(k.Field.Key).Signer}
